@@ -694,7 +694,19 @@ func c07Session(t *testing.T, v c07Variant, rng *vRand, drop int, mtu int, early
 				wr.mu.Lock()
 				wr.payloads = append(wr.payloads, pl)
 				wr.mu.Unlock()
-				_, _ = p.Conn.Write(pl)
+				// bounded: a Write stuck behind a post-handshake flight that never completes must not hang the run
+				wdone := make(chan struct{})
+				go func(p *vPeer, pl []byte) { _, _ = p.Conn.Write(pl); close(wdone) }(p, pl)
+				if !net.run(func() bool {
+					select {
+					case <-wdone:
+						return true
+					default:
+						return false
+					}
+				}, 20*time.Second) {
+					res.Err += " Write after KeyUpdate still blocked after 20s"
+				}
 				net.drain(time.Second)
 			}
 		}
